@@ -61,6 +61,8 @@
 extern crate libc;
 
 mod half_lock;
+#[cfg(feature = "verif-hooks")]
+pub mod verif;
 
 use std::collections::hash_map::Entry;
 use std::collections::{BTreeMap, HashMap};
@@ -156,6 +158,8 @@ impl Slot {
 
     #[cfg(not(windows))]
     fn new(signal: libc::c_int) -> Result<Self, Error> {
+        #[cfg(feature = "verif-hooks")]
+        use verif::libc_shim as libc;
         // C data structure, expected to be zeroed out.
         let mut new: libc::sigaction = unsafe { mem::zeroed() };
         #[cfg(not(target_os = "aix"))]
@@ -215,6 +219,8 @@ impl Prev {
 
     #[cfg(not(windows))]
     fn detect(signal: c_int) -> Result<Self, Error> {
+        #[cfg(feature = "verif-hooks")]
+        use verif::libc_shim as libc;
         // C data structure, expected to be zeroed out.
         let mut old: libc::sigaction = unsafe { mem::zeroed() };
         // FFI ‒ pointers are valid, it doesn't take ownership.
@@ -350,11 +356,19 @@ extern "C" fn handler(sig: c_int) {
 
 #[cfg(not(windows))]
 extern "C" fn handler(sig: c_int, info: *mut siginfo_t, data: *mut c_void) {
+    #[cfg(feature = "verif-hooks")]
+    let _verif_bracket = verif::DispatchBracket::new(sig);
     let globals = GlobalData::get();
     let fallback = globals.race_fallback.read();
+    #[cfg(feature = "verif-hooks")]
+    verif::point(verif::site::D_AFTER_FALLBACK_READ, sig as usize, 0);
     let sigdata = globals.data.read();
+    #[cfg(feature = "verif-hooks")]
+    verif::point(verif::site::D_AFTER_DATA_READ, sig as usize, 0);
 
     if let Some(slot) = sigdata.signals.get(&sig) {
+        #[cfg(feature = "verif-hooks")]
+        verif::point(verif::site::D_BEFORE_PREV, sig as usize, 0);
         unsafe { slot.prev.execute(sig, info, data) };
 
         let info = unsafe { info.as_ref() };
@@ -373,6 +387,8 @@ extern "C" fn handler(sig: c_int, info: *mut siginfo_t, data: *mut c_void) {
         });
 
         for action in slot.actions.values() {
+            #[cfg(feature = "verif-hooks")]
+            verif::point(verif::site::D_BEFORE_ACTION, sig as usize, &**action as *const Action as *const () as usize);
             action(info);
         }
     } else if let Some(prev) = fallback.as_ref() {
@@ -380,6 +396,8 @@ extern "C" fn handler(sig: c_int, info: *mut siginfo_t, data: *mut c_void) {
         // the race condition. We may have the old signal handler stored in the fallback
         // temporarily.
         if prev.signal == sig {
+            #[cfg(feature = "verif-hooks")]
+            verif::point(verif::site::D_FALLBACK_PREV, sig as usize, 0);
             unsafe { prev.execute(sig, info, data) };
         }
         // else -> probably should not happen, but races with other threads are possible so
@@ -584,6 +602,8 @@ where
     let mut lock = globals.data.write();
 
     let mut sigdata = SignalData::clone(&lock);
+    #[cfg(feature = "verif-hooks")]
+    verif::point(verif::site::REG_CLONED, signal as usize, 0);
     let id = ActionId(sigdata.next_id);
     sigdata.next_id += 1;
 
@@ -606,18 +626,28 @@ where
             // And yes, this still leaves a short race condition when some other thread could
             // replace the signal handler and we would be calling the outdated one for a short
             // time, until we install the slot.
+            #[cfg(feature = "verif-hooks")]
+            verif::point(verif::site::REG_BEFORE_FALLBACK, signal as usize, 0);
             globals
                 .race_fallback
                 .write()
                 .store(Some(Prev::detect(signal)?));
+            #[cfg(feature = "verif-hooks")]
+            verif::point(verif::site::REG_AFTER_FALLBACK, signal as usize, 0);
 
             let mut slot = Slot::new(signal)?;
+            #[cfg(feature = "verif-hooks")]
+            verif::point(verif::site::REG_AFTER_SIGACTION, signal as usize, 0);
             slot.actions.insert(id, action);
             place.insert(slot);
         }
     }
 
+    #[cfg(feature = "verif-hooks")]
+    verif::point(verif::site::REG_BEFORE_PUBLISH, signal as usize, 0);
     lock.store(sigdata);
+    #[cfg(feature = "verif-hooks")]
+    verif::point(verif::site::REG_DONE, signal as usize, 0);
 
     Ok(SigId { signal, action: id })
 }
@@ -644,11 +674,17 @@ pub fn unregister(id: SigId) -> bool {
     let mut replace = false;
     let mut lock = globals.data.write();
     let mut sigdata = SignalData::clone(&lock);
+    #[cfg(feature = "verif-hooks")]
+    verif::point(verif::site::UNREG_CLONED, id.signal as usize, 0);
     if let Some(slot) = sigdata.signals.get_mut(&id.signal) {
         replace = slot.actions.remove(&id.action).is_some();
     }
     if replace {
+        #[cfg(feature = "verif-hooks")]
+        verif::point(verif::site::UNREG_BEFORE_PUBLISH, id.signal as usize, 0);
         lock.store(sigdata);
+        #[cfg(feature = "verif-hooks")]
+        verif::point(verif::site::UNREG_DONE, id.signal as usize, 0);
     }
     replace
 }
@@ -666,6 +702,8 @@ pub fn unregister_signal(signal: c_int) -> bool {
     let mut replace = false;
     let mut lock = globals.data.write();
     let mut sigdata = SignalData::clone(&lock);
+    #[cfg(feature = "verif-hooks")]
+    verif::point(verif::site::UNREG_CLONED, signal as usize, 1);
     if let Some(slot) = sigdata.signals.get_mut(&signal) {
         if !slot.actions.is_empty() {
             slot.actions.clear();
@@ -673,7 +711,11 @@ pub fn unregister_signal(signal: c_int) -> bool {
         }
     }
     if replace {
+        #[cfg(feature = "verif-hooks")]
+        verif::point(verif::site::UNREG_BEFORE_PUBLISH, signal as usize, 1);
         lock.store(sigdata);
+        #[cfg(feature = "verif-hooks")]
+        verif::point(verif::site::UNREG_DONE, signal as usize, 1);
     }
     replace
 }
